@@ -182,6 +182,22 @@ pub fn c14_k_filtered_params_malformed_entry_anywhere() {
     params_case::<3>(2);
 }
 
+/// the same statement on one concrete list shape (cheap, and robust when the loop is rewritten): two known entries, then an entry that
+/// lacks its required member `type` - the list must be rejected although its value is already determined (seed C05-7 skipped the rest
+/// of the list with IgnoredAny)
+#[kani::proof]
+#[kani::unwind(14)]
+pub fn c14_k_filtered_params_malformed_behind_two_known() {
+    let items = [Param { alg: -7, kind: 0 }, Param { alg: -8, kind: 0 }, Param { alg: kani::any(), kind: 3 }];
+    let consumed = core::cell::Cell::new(0usize);
+    let r = FilteredPublicKeyCredentialParameters::deserialize(ParamList { items: &items, consumed: &consumed });
+    assert!(r.is_err(), "C05/C14: an entry without its required member `type` behind two known entries was accepted");
+    // control: the same list without the malformed entry is accepted with both entries kept
+    let consumed2 = core::cell::Cell::new(0usize);
+    let r2 = FilteredPublicKeyCredentialParameters::deserialize(ParamList { items: &items[..2], consumed: &consumed2 });
+    assert!(matches!(&r2, Ok(f) if f.0.len() == 2), "C14: two known entries were not both kept");
+}
+
 #[kani::proof]
 #[kani::unwind(14)]
 pub fn c14_k_filtered_params_upto6() {
